@@ -88,6 +88,7 @@ def inject(u, ws):
     marker = '// @verif-injected %s' % u['unit']
     # harness module
     mf = os.path.join(ws, u['modfile'])
+    os.makedirs(os.path.dirname(mf), exist_ok=True)
     with open(mf, 'w') as f:
         f.write('// GENERATED harness module for unit %s (not part of /repo)\n' % u['unit'])
         f.write('#![allow(unused_imports, dead_code, unused_variables, unused_mut)]\n')
@@ -224,7 +225,9 @@ def run_kani_unit(u, workdir, tier, repo):
     # run: one cargo-kani invocation per group of harnesses with equal flags
     env = kani_env(workdir)
     timeout = max(h.get('timeout', 600) for h in hs) + 600 if hs else 600
-    cmd = kani_cmd(u, [h['name'] for h in hs])
+    per_harness = max([h.get('timeout', 300) for h in hs] or [300])
+    cmd = kani_cmd(u, [h['name'] for h in hs], ['-Z', 'unstable-options', '--harness-timeout', '%ds' % per_harness])
+    timeout = per_harness * len(hs) + 900
     res['cmd'] = ' '.join(cmd) + '   (cwd = scratch copy of /repo with the overlay applied)'
     rc, out, to, wall = run_proc(cmd, ws, env, timeout, u.get('mem_gb', 24))
     parsed = parse_kani(out)
@@ -278,11 +281,12 @@ def run_kani_unit(u, workdir, tier, repo):
         if unwind:
             res['undecided'].append('harness %s: unwinding assertion failed (bound too small for the current code)' % h['name'])
             other = [(d, l) for d, l in other if 'unwinding assertion' not in d]
-        n_ob += 1
+        if not h.get('bounded'):
+            n_ob += 1
         if other:
             res['failed'].append({'name': h['name'] + '.safety', 'function': h.get('function', h['name']), 'harness': h['name'],
                                   'message': 'Kani: ' + '; '.join('%s @ %s' % (d, l) for d, l in other[:4]), 'bounded': bool(h.get('bounded'))})
-        elif pr['verdict'] == 'SUCCESSFUL':
+        elif pr['verdict'] == 'SUCCESSFUL' and not h.get('bounded'):
             n_dis += 1
     res['n_obligations'], res['n_discharged'] = n_ob, n_dis
     if led is None:
